@@ -11,9 +11,9 @@ RULE = ("single transitions level i -> i+1 run in isolation through the real com
         "freshly written level i (so a transition is exercised even when an earlier one would raise): infos "
         "from the real generator (sizes 1..70, resolution ratios from {1,1.2,1.5,2,2.8,3,5,6,10,40}, target "
         "chunk sizes 1..32) and hand-made pairs with arbitrary chunk sizes 1..6 (compatible and not, powers of "
-        "two and not), sizes k*chunk and k*chunk+1; all three downscalers, outside values, u8/u16/u32/f32, "
+        "two and not), sizes k*chunk and k*chunk+1; all three downscalers (named, or selected as `auto` by the info's type), outside values, u8/u16/u32/f32, "
         "1-3 channels; np.empty poisoned with two patterns; the new level is read back and compared with the "
-        "real downscaler applied to the whole previous level as one array; outcome (ok / error class) compared "
+        "selected method's class, built directly from the options, applied to the whole previous level as one array; outcome (ok / error class) compared "
         "with the per-axis Lean plan; thorough tier: additionally ALL (old size 1..10, factor 1/2, old chunk 1..5, "
         "new chunk 1..6) on each axis. Trivial = no axis is downscaled or single-chunk levels.")
 ASSUMPTIONS = [
